@@ -137,6 +137,7 @@ add('gtxcommon_f', [('float', 3), ('double', 1)], [('bool', 9), ('float', 2)], '
 add('gtculp_f', [('float', 2), ('double', 2)], [('float', 2), ('double', 2), ('int32_t', 1), ('int64_t', 1)], 'o[0] = glm::next_float(a[0]); o[1] = glm::prev_float(a[0]); o2[0] = glm::next_float(b[0]); o2[1] = glm::prev_float(b[0]); o3[0] = glm::float_distance(a[0], a[1]); o4[0] = glm::float_distance(b[0], b[1]);',
     lambda i: [z3.Not(is_nan(x)) for x in i[0] + i[1]] + [z3.Extract(31, 31, i[0][0]) == z3.Extract(31, 31, i[0][1]), z3.Extract(63, 63, i[1][0]) == z3.Extract(63, 63, i[1][1])])       # same-sign pairs: the distance always fits
 add('dualquat_f', [('float', 8), ('float', 8), ('float', 1)], [('float', 8)] * 3, 'glm::dualquat A(ldq<float>(a), ldq<float>(a + 4)), B(ldq<float>(b), ldq<float>(b + 4)); glm::dualquat C(A); stq(o, C.real); stq(o + 4, C.dual); C = B; stq(o2, C.real); stq(o2 + 4, C.dual); C = A * c[0] + B; stq(o3, C.real); stq(o3 + 4, C.dual);')
+add('mixu_f', [('float', 3), ('float', 3), ('double', 1), ('double', 3), ('float', 1)], [('float', 3), ('double', 3)], 'stv(o, glm::mix(ldv<3,float>(a), ldv<3,float>(b), c[0])); stv(o2, glm::mix(ldv<3,double>(d), ldv<3,double>(d), e[0]));')       # interpolant of another floating type than the components
 add('qrel_f', [('float', 4), ('float', 4)], [('bool', 4)] * 4, 'stv(o, glm::equal(ldq<float>(a), ldq<float>(b))); stv(o2, glm::lessThan(ldq<float>(a), ldq<float>(b))); stv(o3, glm::greaterThanEqual(ldq<float>(a), ldq<float>(b))); stv(o4, glm::isnan(ldq<float>(a)));')
 
 # every matrix constructor has a second body for compilers without initializer lists (GLM_HAS_INITIALIZER_LISTS == 0 under GLM_FORCE_CXX98/03): all 81 shape conversions, the
@@ -163,7 +164,7 @@ CFG = {
     'cxx98+quat_wxyz+ctor_init': ['GLM_FORCE_CXX98', 'GLM_FORCE_QUAT_DATA_WXYZ', 'GLM_FORCE_CTOR_INIT'], 'compiler_unknown+platform_unknown+arch_unknown': ['GLM_FORCE_COMPILER_UNKNOWN', 'GLM_FORCE_PLATFORM_UNKNOWN', 'GLM_FORCE_ARCH_UNKNOWN'],
     'cxx17+size_t_length+xyzw_only+explicit_ctor': ['GLM_FORCE_CXX17', 'GLM_FORCE_SIZE_T_LENGTH', 'GLM_FORCE_XYZW_ONLY', 'GLM_FORCE_EXPLICIT_CTOR'],
 }
-QUICK_CFG = ['cxx98', 'cxx98+compiler_unknown', 'cxx11', 'inline', 'ctor_init', 'xyzw_only', 'swizzle', 'quat_wxyz', 'aligned_pure', 'compiler_unknown', 'size_t_length', 'arch_unknown', 'platform_unknown', 'explicit_ctor']
+QUICK_CFG = ['cxx98', 'cxx98+compiler_unknown', 'unrestricted_gentype', 'cxx11', 'inline', 'ctor_init', 'xyzw_only', 'swizzle', 'quat_wxyz', 'aligned_pure', 'compiler_unknown', 'size_t_length', 'arch_unknown', 'platform_unknown', 'explicit_ctor']
 OPTS_Q = ['-O2']; OPTS_T = ['-O0', '-O2', '-O3']
 UNITS = {k: B.clone('c15' + re.sub(r'\W', '_', k), defines=v) for k, v in CFG.items()}
 NATIVE = False        # native builds are made lazily, only when a counterexample has to be replayed
